@@ -185,9 +185,9 @@ LEVEL_TEXT = {
     'C03': _V + 'every Parser method of the five evaluators refines a table-driven specification parser (Ok iff the spec parser accepts and the whole token stream is consumed); the tokenizers refine a lexical specification generated from the README vocabulary (a function name or alias is a token only directly before `(`, unknown characters and unknown words are rejected, Eof exactly at the end of input); '
                 'the public wrappers return Err iff the stripped text does not parse. Owned: parse (Eof), check_paren, argument-list methods, reject exits, wrapper.',
     'C04': _V + 'get_oper_prec equals the precedence table, generate_ast is precedence climbing with strict <, every binary / prefix / postfix / bracket arm builds the node and uses the operand level the tables give; '
-                'Kani proves on the real derive that the derived order of OperatorCategory is the precedence order.',
+                'Kani proves on the real derive that the derived order of OperatorCategory is the precedence order. "The value is that of evaluating the tree": the operator arms of all five evaluators apply their operation to the values of their children (the evaluator contracts), the operator symbols lex to their tokens, the wrappers are the plain composition.',
     'C06': _V + 'eval_i64::ast::eval returns the exact integer of the mathematical specification spec_eval or Err, for all trees; overflow obligations of every arithmetic arm are discharged; Kani cross-checks each arm with bit-vector semantics '
-                '(shifts as multiplication / floor division by 2^y) and supplies replayable counterexamples.',
+                '(shifts as multiplication / floor division by 2^y) and supplies replayable counterexamples; the whole eval_i64 stack is owned: the parser refines the grammar, the tokenizer hands the maximal digit run to the conversion and rejects what does not fit (Kani point harnesses at the edge of i64), the wrapper is the plain composition; n! is proved over all of i64 by Kani as well (the unwinding assertion is its iteration bound).',
     'C10': _V + 'every README name and alias lexes to its function token in each evaluator that offers it (lexical specification of the tokenizers); arity and argument order of every function in all five parsers (refinement to the function table); exact integer functions of eval_i64; the mapping of every function node to the rust_decimal / num_complex operation (headers); '
                 'every function node of eval_f64 and eval_number applies the named IEEE / libm primitive to its children\'s values in the stated order (primitives uninterpreted), with Number::from applied to the result in eval_number; x! of a non-integer (eval_f64) resp. outside 0..=20 / of a Float (eval_number) is gamma(x + 1) - which argument reaches gamma is proved, its value is not; '
                 'Kani: every function arm of eval_f64 / eval_number / eval_i64 applies the named libm primitive once to the operands in the stated order (recording stubs), exact ones (abs, floor, ceil, trunc, round with ties away from zero, sgn(0)=0) bit-exactly.',
